@@ -13,11 +13,12 @@ ASSUME = [
     "tag layouts follow GRUB's multiboot2.h (framebuffer: 16-bit reserved field before the colour info; ELF tag: three 32-bit words before the headers)",
     "defined memory-region types are 1..4 (the package's MemoryEntryType constants); every other 32-bit value must be reported as reserved (2)",
     "command-line entries with two or more '=' are neither key=value nor bare flag: blocks containing one are still decoded (fault check) but their "
-    "command-line result is not constrained; for a bare flag only the presence of the key is required; a key given twice may report either value; bytes 1..127 only",
+    "command-line result is not constrained; for a bare flag only the presence of the key is required; a key given twice may report either value; any byte 1..255 except the UTF-8 lead bytes C2/E1/E2/E3 (with them a non-ASCII Unicode space could form, and the statement does not say whether those separate entries); entries are separated by ASCII white space",
     "ELF section flags are generated below 2^32 (the visitor's flag type is 32 bits wide); sections are compared as a bag (the statement orders regions, not sections)",
     "an RGB layout is reported iff the framebuffer tag has type 1 (direct colour); for indexed, EGA-text and unknown types RGBColorInfo() must be nil (logged as an empty list)",
     "reads outside the block are observed as faults on the PROT_NONE page that directly follows the block (and the string table); a stray read that stays "
     "inside mapped memory before the block is visible only through a wrong result",
+    "not covered (infeasible or outside the statement): tags of >= 2^31 bytes, ELF section counts >= 65536, ELF32 section headers, memory maps of more than ~600 entries, command lines beyond ~16 KiB, blocks beyond ~400 KiB; T reaches entry sizes up to 70001, 565 entries, 430 sections, names of 500 characters, unknown tags of 100 KiB, tag types >= 2^31",
     "trusted Go: the block encoder (abstract tags -> bytes), the guard-page arena and the event logger in harness/multiboot (no expected results in them)",
 ]
 
@@ -84,8 +85,8 @@ def run(ctx):
     ctx.assumptions += ASSUME
     ctx.rule = ("case = one abstract information block (tag sequence with payloads) + padding byte; leg G decodes every block TLC enumerated in the "
                 "small scope (all tag orders/duplicates over a 16-tag menu incl. the empty-payload corner cases (ELF tag without sections, map without entries, empty command line, minimal framebuffer tag) in every position, entry sizes 24/32/40 x all boundary types, every command line over "
-                "{a,=,space,tab}, section tables, framebuffer types), each with zero and 0xEE padding; leg T decodes seeded random blocks (<= 12 tags, <= 64 "
-                "entries, arbitrary 32-bit types, long command lines, <= 30 sections); a case is distinct by (block, padding) and non-trivial when it "
+                "{a,=,space,tab}, section tables, framebuffer types), each with zero and 0xEE padding; leg T decodes seeded random blocks (<= 13 tags, 0..565 "
+                "entries of 24..70001 bytes, arbitrary 32-bit region and tag types, command lines up to kilobytes with any byte, 0..430 sections, tags beyond 64 KiB); a case is distinct by (block, padding) and non-trivial when it "
                 "holds at least one decoded tag kind")
     d = ctx.spec_dir("multiboot")
     tier = "Quick" if q else "Full"
